@@ -54,7 +54,7 @@ func runC13(c *eng.Ctx) {
 				opsVar = eng.SelObj(info, as.Lhs[0])
 			}
 			execOK := false
-			for _, ex := range callsIn(info, f.Decl.Body, func(o types.Object, _ *ast.CallExpr) bool { return o != nil && o.Name() == "ExecuteOperations" }) {
+			for _, ex := range callsIn(info, f.Decl.Body, func(o types.Object, _ *ast.CallExpr) bool { return o != nil && nameOf(o) == "ExecuteOperations" }) {
 				if len(ex.Args) == 1 && opsVar != nil && eng.UsesObj(info, ex.Args[0], opsVar, false) {
 					en := g.NodeOf(ex)
 					if en != nil && g.OnlyVia(en, func(m *eng.GNode) bool { return m == node }, nil) {
@@ -455,7 +455,7 @@ func runC13R2(c *eng.Ctx, r *eng.RuleCtx) {
 		g := p.GraphOf(f)
 		var loop *ast.ForStmt
 		var decode *ast.CallExpr
-		for _, call := range callsIn(info, f.Decl.Body, func(o types.Object, _ *ast.CallExpr) bool { return o != nil && o.Name() == "Decode" }) {
+		for _, call := range callsIn(info, f.Decl.Body, func(o types.Object, _ *ast.CallExpr) bool { return o != nil && nameOf(o) == "Decode" }) {
 			decode = call
 			loop, _ = eng.LoopOf(f.Decl.Body, call.Pos()).(*ast.ForStmt)
 		}
@@ -517,12 +517,12 @@ func runC13R2(c *eng.Ctx, r *eng.RuleCtx) {
 				continue
 			}
 			calls := callsIn(info, el.Body, func(o types.Object, call *ast.CallExpr) bool {
-				return o != nil && o.Name() == "ExecuteOperation" && len(call.Args) == 1 && el.IsElem(call.Args[0])
+				return o != nil && nameOf(o) == "ExecuteOperation" && len(call.Args) == 1 && el.IsElem(call.Args[0])
 			})
 			if len(calls) == 1 {
 				n := g.NodeOf(calls[0])
 				accum := func(m *eng.GNode) bool {
-					if len(g.CallsAt(m, func(o types.Object, _ *ast.CallExpr) bool { return o != nil && o.Name() == "Append" })) == 0 {
+					if len(g.CallsAt(m, func(o types.Object, _ *ast.CallExpr) bool { return o != nil && nameOf(o) == "Append" })) == 0 {
 						return false
 					}
 					as, isA := m.Node.(*ast.AssignStmt)
